@@ -84,9 +84,9 @@ func c19Put(gen string, version string, shards int, mtime int64) string {
 	return strings.Join(out, ",")
 }
 
-// H_C19_reload: repository r is indexed as generation g0 (1 or 2 shards) and loaded by a first
+// H_C19_reload: repository r is indexed as generation g0 (1 to 3 shards) and loaded by a first
 // scan; the directory then changes completely to its next state - unchanged, re-indexed in place
-// as g1 with 1 or 2 shards (surplus old shard deleted), re-indexed in a newer format version (old
+// as g1 with 1 to 3 shards (surplus old shard deleted), re-indexed in a newer format version (old
 // files still present), or deleted - and a second scan applies the change while a search takes its
 // snapshot of the shard list at an arbitrary moment. The snapshot must hold either exactly the old
 // or exactly the new shard set of r (never a part of one, never none while r exists in both, never
@@ -101,7 +101,7 @@ func H_C19_reload() {
 	ss := &shardedSearcher{sched: c19Sched{}, shards: map[string]*rankedShard{}}
 	w := &DirectoryWatcher{dir: "/idx", timestamps: map[string]time.Time{}, loader: &loader{ss: ss}}
 
-	k0 := verifrt.Concretize(verifrt.IntRange("oldShards", 1, 2))
+	k0 := verifrt.Concretize(verifrt.IntRange("oldShards", 1, 3))
 	old := c19Put("g0", "16", k0, 100)
 	verifrt.FSPut("/idx/s_v16.00000.zoekt", []byte("s g0"))
 	verifrt.FS["/idx/s_v16.00000.zoekt"].MTime = 100
@@ -114,14 +114,14 @@ func H_C19_reload() {
 	case 0:
 		want, label = old, "unchanged"
 	case 1:
-		k1 := verifrt.Concretize(verifrt.IntRange("newShards", 1, 2))
+		k1 := verifrt.Concretize(verifrt.IntRange("newShards", 1, 3))
 		for i := k1; i < k0; i++ {
 			verifrt.OsRemove("/idx/r_v16.0000" + string(rune('0'+i)) + ".zoekt")
 		}
 		want = c19Put("g1", "16", k1, 101)
 		label = "re-indexed in place with " + string(rune('0'+k0)) + "->" + string(rune('0'+k1)) + " shards"
 	case 2:
-		k1 := verifrt.Concretize(verifrt.IntRange("newShards", 1, 2))
+		k1 := verifrt.Concretize(verifrt.IntRange("newShards", 1, 3))
 		want = c19Put("g1", "17", k1, 101)
 		label = "re-indexed in a newer format version (old version's files still on disk)"
 	default:
